@@ -99,7 +99,7 @@ var profiles = map[string]Profile{
 		Tpls:  []int{tplWorld, tplLit, tplVar, tplSetAccountMeta, tplOverdraftUnbounded},
 		IKPct: 40, RefPct: 20, DryPct: 0, TSPct: 60, BigPct: 40, CrashPct: 70, ClockPct: 40, IKPool: 3, RefPool: 3, TargetPool: 4, CancelBlockedPct: 20, CancelPct: 6, FundMax: 30, AmountMax: 5},
 	// C16
-	"events": {Name: "events", MaxClients: 5, MaxOps: 3, MaxGens: 2, MaxLedgers: 2, WKind: [5]int{5, 3, 5, 3, 3},
+	"events": {Name: "events", CrashPct: 45, MaxClients: 5, MaxOps: 3, MaxGens: 3, MaxLedgers: 2, WKind: [5]int{5, 3, 5, 3, 3},
 		Tpls:  []int{tplWorld, tplLit, tplVar, tplSetAccountMeta, tplAll},
 		IKPct: 25, RefPct: 5, DryPct: 20, CancelPct: 8, CancelBlockedPct: 25, IKPool: 2, RefPool: 2, TargetPool: 3, FundMax: 20, AmountMax: 6},
 	// C14 invariant form under concurrency
